@@ -631,7 +631,10 @@ PROPS = {
                    "(resolve_missing); extracted-table theorem: every .bard entry point compiles through a resolving function",
     ),
     "C14": dict(
-        theorems=["Bardic.Include.display_origin", "Bardic.Include.resolve_provenance", T + "errorSites_unshifted"],
+        theorems=["Bardic.Include.display_origin", "Bardic.Include.resolve_provenance", T + "errorSites_unshifted",
+                  "Bardic.Parser.parseLines_diag_in_text", "Bardic.Parser.parseStory_diag_in_text", "Bardic.Parser.parseText_diag_in_text",
+                  "Bardic.Parser.diag_names_true_origin", "Bardic.Parser.blocks_rng", "Bardic.Parser.coreLoop_rng",
+                  "Bardic.Parser.splitNl_noNl", "Bardic.Parser.multiline_spec"],
         run=run_c14,
         rule="~30 kinds of single malformed construct (hooks, render, input, bad ~ statement incl. multi-line, unbalanced "
              "braces, @if/@elif/@else/@for/@py headers in both syntaxes, @endif:/@endfor:, malformed choices, passage names "
@@ -642,7 +645,13 @@ PROPS = {
                    "site that passes the 0-based combined index of the offending line names exactly the file and 1-based "
                    "line the author wrote, in every include graph) + errorSites_unshifted, a kernel-checked theorem over the "
                    "table of all 42 format_error call sites and 8 forwarding calls re-extracted from the source on every run "
-                   "(each passes the index unshifted); that the index is the right line is decided by the placement oracle",
+                   "(each passes the index unshifted); on the whole text-level parser model, parseLines_diag_in_text: for every text "
+                   "and every behaviour of ast.parse that reports a statement's syntax error on one of the statement's own lines "
+                   "(StmtLinesOk, checked on every recorded table) a located diagnostic names a line OF the text (the line the loop "
+                   "stands on, the opening line of an unclosed block, a line of a multi-line statement or of a join block), and "
+                   "diag_names_true_origin: composed with the include resolver, the file and 1-based line in the diagnostic's header "
+                   "exist in a file the author wrote and read exactly the combined line the parser was looking at; that this line is "
+                   "the one the malformed construct stands on is decided by the placement oracle and the text correspondence",
     ),
     "C18": dict(
         theorems=[T + "renderToks_sub", T + "renderTok_sub", T + "renderBranches_sub", T + "renderChoiceTexts_sub",
